@@ -312,3 +312,83 @@ def dims_order(u: Unit):
             u.oblige(p, f"dims.order{tag}.keys_in_sweep_order", got_keys == keys, {"keys": str(got_keys)}, DIMS_REPLAY)
             u.oblige(p, f"dims.order{tag}.names", got_vals == [want_name(k, keys) for k in got_keys] and len(set(got_vals)) == len(got_vals), {"names": str(got_vals)}, DIMS_REPLAY)
         u.cover(f"dims.order.cover{tag}", ps, lambda p: p.kind == "return")
+
+
+# ---- DaskBFE: the batch evaluator returns, candidate by candidate, what problem.fitness returns ---------------------------------------------
+BFE_REPLAY = lambda w: {"code": """
+import numpy as np, dask
+from pyxel.calibration.user_defined import DaskBFE
+class Prob:                                   # the interface pygmo hands to a batch evaluator
+    def get_nx(self): return 2
+    def get_nf(self): return 1
+    def fitness(self, x):
+        a, b = float(x[0]), float(x[1])
+        if a < 0: return np.array([float('nan')])
+        if b < 0: return np.array([float('inf')])
+        return np.array([100.0 * a + b])
+dvs = np.array([[1.0, 2.0], [-1.0, 3.0], [4.0, -5.0], [0.5, 0.25], [-2.0, -2.0], [7.0, 8.0], [9.0, 1.0]])
+want = np.array([Prob().fitness(x)[0] for x in dvs])
+VIOLATED, DETAIL = False, 'the batch evaluator returns the fitness of every candidate, in order, unchanged'
+for chunk in (None, 1, 2, 3, 50):
+    for sched in ('synchronous', 'threads'):
+        with dask.config.set(scheduler=sched):
+            got = np.asarray(DaskBFE(chunk_size=chunk)(Prob(), dvs.ravel()))
+        if got.shape != want.shape or not np.array_equal(got, want, equal_nan=True):
+            VIOLATED, DETAIL = True, f'chunk_size={chunk}, scheduler={sched}: batch {got.tolist()}, one by one {want.tolist()}'; break
+    if VIOLATED: break
+""", "expect": "DaskBFE(prob, dvs) == [prob.fitness(dv) for dv in dvs] for every chunk size and scheduler, NaN and infinities included"}
+
+
+@unit("C07", "bfe.values")
+def bfe_values(u: Unit):
+    """DaskBFE.__call__ with dask as boundary: the vector handed back is the FLATTENED result of the generalised function built from
+    `problem.fitness` applied to the candidates reshaped to (n, nx) -- nothing else touches the values between the evaluation and the return
+    (no clipping, replacement or re-ordering: batch and one-by-one evaluation rank the candidates alike). Any other construction is
+    undecided and the bounded native scenario (7 candidates incl. NaN / inf fitness x 5 chunk sizes x 2 schedulers) decides."""
+    fi = u.fn("pyxel/calibration/user_defined.py::DaskBFE.__call__")
+    bci = u.cls("pyxel/calibration/user_defined.py::DaskBFE")
+    cfg = Cfg("real")
+    boundary.install(cfg, prefixes=("dask.", "xarray.", "pandas."))
+    psq = "pyxel/calibration/user_defined.py::ProblemSerializable.__init__"
+    try:
+        u.world.function(psq)
+        cfg.contracts[psq] = Contract(psq, lambda ex, args, kwargs, fr: (ex.st.cell(args[0]).fields.__setitem__("wrapped", args[1]), NONE)[1], "pickle wrapper of the problem")
+    except Exception:
+        pass
+    base_call = cfg.lib_overrides[("call", "xr")]
+
+    def call(ex, f, args, kwargs, fr):
+        lab = str(f.info.get("label", ""))
+        if lab.endswith(".get_nx") or lab.endswith(".get_nf"):          # pygmo: dimension of the problem / number of objectives, positive integers
+            t = z3.Int("problem_" + lab.rsplit(".", 1)[1])
+            ex.st.assume(t >= 1)
+            return VInt(t)
+        return base_call(ex, f, args, kwargs, fr)
+    cfg.lib_overrides[("call", "xr")] = call
+    for chunk in ("none", "given"):
+        def setup(ex, chunk=chunk):
+            me = ex.st.alloc(HObj(bci, {"_chunk_size": NONE if chunk == "none" else VInt(z3.Int("chunk_size"))}))
+            ex.st.assume(z3.Int("chunk_size") >= 1)
+            ex.prob = VOpaque("xr", None, {"label": "prob", "truthy": True})
+            ex.dvs = VOpaque("xr", None, {"label": "dvs_1d", "truthy": True})
+            return [me], {"prob": ex.prob, "dvs_1d": ex.dvs}
+        ps = u.paths(fi, setup, cfg, label=f"DaskBFE.__call__[chunk {chunk}]")
+        for p in ps:
+            if p.kind != "return":
+                continue                                   # an exception of the boundary is logged and re-raised (C09)
+            v = p.value
+            fn_ = v.info.get("fn") if isinstance(v, VOpaque) else None
+            flat = fn_ is not None and str(fn_.info.get("attr")) in ("ravel", "flatten") and not v.info.get("args") or (fn_ is not None and str(fn_.info.get("attr")) == "reshape")
+            src = fn_.info.get("of") if flat else None
+            from_gufunc = isinstance(src, VOpaque) and isinstance(src.info.get("fn"), VOpaque) and "gufunc" in str(src.info["fn"].info.get("label", ""))
+            if not (flat and from_gufunc):
+                u.undecide(f"bfe.values.returned_as_evaluated[chunk {chunk}]", fi.qualname, f"the returned vector is not the flattened result of the generalised fitness function: {str(getattr(v, 'info', {}).get('label'))[:120]}")
+                continue
+            g = src.info["fn"]
+            first = (g.info.get("args") or [None])[0]
+            ok_f = (isinstance(first, VOpaque) and str(first.info.get("attr", "")) == "fitness") or (isinstance(first, VFunc) and first.fi.name == "fitness")
+            u.oblige(p, f"bfe.values.returned_as_evaluated[chunk {chunk}]", bool(ok_f), {}, BFE_REPLAY)
+        u.cover(f"bfe.values.cover[chunk {chunk}]", ps, lambda p: p.kind == "return")
+
+
+STANDIN = dict(globals().get("STANDIN", {}), **{r"bfe\.values": BFE_REPLAY})
